@@ -2,7 +2,7 @@
 From Via Require Import M_Char M_Encode M_Parse M_Receive M_Server P_Server.
 Local Open Scope N_scope.
 
-From Via Require Import P_C09.
+From Via Require Import P_C09 P_Shapes.
 
 (* in every reachable state: a connection known to http_server is known to comms::server, is
    connected and its socket is open; so the collections never hold a closed connection *)
